@@ -3,6 +3,8 @@ From Coq Require Import Reals List ZArith.
 From TFV Require Import Base.RBase Shape.LineShapes Rot.Wigner Amp.Dalitz3 Amp.Dalitz3_proofs Amp.Unitary Amp.Unitary_proofs
      Kin.Boost Kin.Boost_proofs Amp.Frame_proofs Amp.Cascade.
 From TFV Require Rot.DHom Amp.Cascade_proofs.
+From TFV Require Import Amp.SwapSign.
+From TFV Require Amp.SwapSign_proofs.
 Import ListNotations.
 Import TFV.Rot.DHom.
 Open Scope R_scope.
@@ -102,6 +104,40 @@ Example C01_cascade_hypotheses_satisfiable :
           mkRes 4 (fun l => (1, IZR l)) (vertex_B 4 2 (1/2) (fun l => (IZR l, 0)))] /\
   mmul (Euler 1 2 3) (Euler 0 0 0) = Euler 1 2 3.
 Proof. exact Cascade_proofs.cascade_hypotheses_satisfiable. Qed.
+
+(* ---- n identical fermions: the sign the code gives to the amplitude evaluated at permuted momenta (DecayGroup.get_swap_factor,
+   model Amp/SwapSign.v, tied to the code for every permutation of groups of 2, 3 and 4 names: harness layer swap_sign).
+   After the repair (patch_4: (-1)^inversions) the sign is a homomorphism of the permutation group, which is what makes the
+   symmetrised amplitude covariant under every permutation of the momenta, 3-cycles included ---- *)
+Theorem C01_swap_factor_hom : forall n s t, (n <= 5)%nat -> In s (perms n) -> In t (perms n) ->
+  swap_factor true (compose s t) = (swap_factor true s * swap_factor true t)%Z.
+Proof. exact SwapSign_proofs.swap_factor_hom. Qed.
+Print Assumptions C01_swap_factor_hom.
+
+(* three identical fermions, ANY unsymmetrised amplitude a (one real component): F(tau) = sum_sigma eps(sigma) a(sigma o tau)
+   satisfies F(tau) = eps(tau) F(id), hence the same square at the permuted event *)
+Theorem C01_sym3_covariant : forall (a : list nat -> R) tau, In tau (perms 3) ->
+  sym_amp (swap_factor true) 3 a tau = IZR (swap_factor true tau) * sym_amp (swap_factor true) 3 a [0; 1; 2]%nat.
+Proof. exact SwapSign_proofs.sym3_covariant. Qed.
+Print Assumptions C01_sym3_covariant.
+Theorem C01_sym3_density_invariant : forall (a : list nat -> R) tau, In tau (perms 3) ->
+  (sym_amp (swap_factor true) 3 a tau) ^ 2 = (sym_amp (swap_factor true) 3 a [0; 1; 2]%nat) ^ 2.
+Proof. exact SwapSign_proofs.sym3_density_invariant. Qed.
+Print Assumptions C01_sym3_density_invariant.
+
+(* the code BEFORE the repair (-1 for every non-identity permutation, the even 3-cycles included): agrees with the signature for
+   two identical particles, is not a homomorphism for three, and the symmetrised density then changes under a permutation *)
+Theorem C01_swap_factor_old_agrees_n2 : forall s, In s (perms 2) -> swap_factor_old true s = swap_factor true s.
+Proof. exact SwapSign_proofs.swap_factor_old_agrees_n2. Qed.
+Print Assumptions C01_swap_factor_old_agrees_n2.
+Theorem C01_swap_factor_old_not_hom_refuted : exists s t, In s (perms 3) /\ In t (perms 3) /\
+  swap_factor_old true (compose s t) <> (swap_factor_old true s * swap_factor_old true t)%Z.
+Proof. exact SwapSign_proofs.swap_factor_old_not_hom_refuted. Qed.
+Print Assumptions C01_swap_factor_old_not_hom_refuted.
+Theorem C01_sym3_old_density_refuted : exists (a : list nat -> R) tau, In tau (perms 3) /\
+  (sym_amp (swap_factor_old true) 3 a tau) ^ 2 <> (sym_amp (swap_factor_old true) 3 a [0; 1; 2]%nat) ^ 2.
+Proof. exact SwapSign_proofs.sym3_old_density_refuted. Qed.
+Print Assumptions C01_sym3_old_density_refuted.
 
 (* NOT proved (kept visible): (i) the geometric hypothesis itself from the kinematic model (that the polar angles
    of G n and of n are related by such a psi: a statement about the covering SU(2) -> SO(3)); (ii) several
